@@ -331,3 +331,48 @@ Definition frame_wf (f : ConnFail.frame) : Prop :=
   N.land (ConnFail.f_version f) 128 = 128 /\ N.land (ConnFail.f_version f) 127 = 4 /\
   ConnFail.valid_opcode (ConnFail.f_opcode f) = true /\
   ConnFail.f_len f = N.of_nat (List.length (ConnFail.f_body f)).
+
+(* ---------------------------------------------------------------- Part 7: what the runner really observes *)
+(* The peer's events (EIn, EOut) are logged by one task in their real order; the callers' events are
+   stamped by other threads -- ESub before the call, EDone after the return -- and merged in by
+   time stamp: relative to the peer's events they can be anywhere (ESub earlier, EDone later than in
+   the real history). *)
+Definition is_mock (e : ev) : bool := match e with EIn _ _ | EOut _ _ => true | _ => false end.
+Definition is_done (e : ev) : bool := match e with EDone _ _ => true | _ => false end.
+
+(* [obs] is an observation of the real history [tr]: same peer events in the same order, every
+   outcome that really happened is in the observation (anywhere) *)
+Definition observes (tr obs : list ev) : Prop :=
+  filter is_mock obs = filter is_mock tr /\
+  (forall e, is_done e = true -> In e tr -> In e obs).
+
+(* ---------------------------------------------------------------- Part 8: the reader's dispatch and the orphaner's tick *)
+(* reader(): `match params.stream.cmp(&-1)`: stream ids below -1 are ignored, -1 is an event, only
+   ids >= 0 reach `handler_map.lookup`.  [raw] = the u16 of the header (i16 s = raw - 65536 when
+   raw >= 32768). *)
+Inductive dispatch := DIgnore | DEvent | DLookup (sid : N).
+Definition reader_dispatch (raw : N) : dispatch :=
+  if raw <? 32768 then DLookup raw
+  else if raw =? 65535 then DEvent else DIgnore.
+
+(* orphaner(): on every tick of the 1 s interval
+   `if old_orphans_count() > OLD_ORPHAN_COUNT_THRESHOLD { return Err(TooManyOrphanedStreamIds) }` *)
+Definition orphaner_tick_breaks (t : thmap) (now : N) : bool :=
+  old_count_threshold <? th_old_orphans_count t now.
+
+(* pointwise order of two clock labellings of the same operations: orphans made later, counts and
+   ticks read earlier in [a] than in [b] *)
+Fixpoint stamps_le (a b : list top) : Prop :=
+  match a, b with
+  | [], [] => True
+  | TOp (OpOrphan _) n :: a', TOp (OpOrphan _) n' :: b' => n' <= n /\ stamps_le a' b'
+  | TOp _ _ :: a', TOp _ _ :: b' => stamps_le a' b'
+  | TCount n :: a', TCount n' :: b' => n <= n' /\ stamps_le a' b'
+  | _, _ => False
+  end.
+Definition res_le (x y : top_res) : Prop :=
+  match x, y with
+  | TRes r, TRes r' => r = r'
+  | TCnt n, TCnt n' => n <= n'
+  | _, _ => False
+  end.
